@@ -923,7 +923,9 @@ ssize_t vp_read(int fd, void *buf, size_t n)
   }
   int o = vp_fd_ofd[fd];
   if (vp_of_kind[o] != VP_K_PIPE_R) {
-    return vp_of_kind[o] == VP_K_PIPE_W ? vp_fail(EBADF) : 0;
+    /* not open for reading: EBADF (found by tools/conformance.sh for /dev/null opened O_WRONLY);
+     * anything else readable that is not a pipe is at end-of-file */
+    return vp_of_kind[o] == VP_K_PIPE_W || vp_of_acc[o] == O_WRONLY ? vp_fail(EBADF) : 0;
   }
   if (vp_eintr_on && vp_fault()) {
     return vp_fail(EINTR);
@@ -1022,7 +1024,7 @@ ssize_t vp_write(int fd, const void *buf, size_t n)
   }
   int o = vp_fd_ofd[fd];
   if (vp_of_kind[o] != VP_K_PIPE_W) {
-    return vp_of_kind[o] == VP_K_PIPE_R ? vp_fail(EBADF) : (ssize_t) n;
+    return vp_of_kind[o] == VP_K_PIPE_R || vp_of_acc[o] == O_RDONLY ? vp_fail(EBADF) : (ssize_t) n;
   }
   if (vp_fault()) {
     /* EPIPE and EAGAIN have a meaning of their own for write (no reader / would block):
